@@ -492,8 +492,21 @@ def run(ctx):
             # is the input itself a counterexample?  (residual / positivity oracles above already ran)
 
 
-READY = False
-LEVEL_TEXT = ""
-LEVEL_NOTE = ""
-TECHNIQUE = "Coq proof (real analysis: monotonicity, derivative, bounds) + extracted-model correspondence + residual/monotone/finite-difference oracles"
+READY = True
+LEVEL_TEXT = ("Theorems (Coq, real-number model of lineardispersion.py, all w,k,d > 0 and deep water, all batch sizes): omega(k,d) = "
+              "sqrt(g k tanh(k d)) is strictly increasing in k, so the root is unique, increases with w and decreases with depth; the "
+              "root lies between w^2/g and w^2/(g tanh(w^2 d/g)) and above w/sqrt(g d); the first guess is a positive under-estimate; a "
+              "Newton step from an under-estimate stays positive; if the loop leaves through the tolerance test EVERY element of the batch "
+              "satisfies |omega(k)-w|/w < tol; deep-water elements are exactly w^2/g in any mixed batch; group/phase ratio in [1/2,1]; the "
+              "implemented group velocity is d omega/dk exactly for kd <= 5 and within 1e-3 relative for kd > 5 (kd/sinh 2kd < 5e-4, proved "
+              "without Interval); the solver on (w,d,g) is the dimensionless solver on w sqrt(d/g) (scale invariance, whole batches); spectrum "
+              "members are the functions at 2 pi f and per-point depth with missing = deep. The model is tied to the code by running the "
+              "extracted model and the numba implementation on the same scalar / array / 2-d calls and spectra (1e-9 relative).")
+LEVEL_NOTE = ("NOT proved, validated by execution only: that the Newton loop converges within its 10 iterations (one-parameter family scan "
+              "x = w sqrt(d/g) in [10^-2.5, 10^2.5], 10^5 points in thorough, residual oracle on every generated point) and monotonicity of the "
+              "RETURNED tolerance-level value (monotone scans; strictness across separate scalar calls fails at one spot inside the 1e-3 tolerance "
+              "and is recorded as a finding). No rounding-error bound: theorems are about R, the executable comparison is in binary64. Trusted: Coq "
+              "kernel, extraction (R as float), numba compiling faithfully, harness tolerances; axioms: the standard-library real-number axioms and "
+              "classic only.")
+TECHNIQUE = "Coq proof (real analysis with Coquelicot: monotonicity, is_derive, bounds, loop invariants) + extracted-model correspondence + residual/monotone/finite-difference oracles"
 DESIGN_REF = "DESIGN.md section 5 C07"
